@@ -134,14 +134,14 @@ Run* g_run = nullptr;
 
 enum class Beh {
   val, thr, res_val, res_err, res_exc, fut_ready, fut_pending, fut_err, shared_ready, shared_pending, task_make, task_sched,
-  task_contract, task_sched_then, shared_cached_exc
+  task_contract, task_sched_then, shared_cached_exc, throw_re
 };
 
 Beh ParseBeh(const std::string& s) {
   static const char* names[] = {"val", "throw", "res_val", "res_err", "res_exc", "fut_ready", "fut_pending", "fut_err",
                                 "shared_ready", "shared_pending", "task_make", "task_sched", "task_contract",
-                                "task_sched_then", "shared_cached_exc"};
-  for (int i = 0; i != 15; ++i) {
+                                "task_sched_then", "shared_cached_exc", "throw_re"};
+  for (int i = 0; i != 16; ++i) {
     if (s == names[i]) {
       return static_cast<Beh>(i);
     }
@@ -153,7 +153,8 @@ Beh ParseBeh(const std::string& s) {
 int RetClass(Beh b) {  // 0 int, 1 Result, 2 Future, 3 SharedFuture, 4 Task
   switch (b) {
     case Beh::val:
-    case Beh::thr: return 0;
+    case Beh::thr:
+    case Beh::throw_re: return 0;
     case Beh::res_val:
     case Beh::res_err:
     case Beh::res_exc: return 1;
@@ -172,6 +173,10 @@ auto Produce(Beh b, int n) {
   if constexpr (RC == 0) {
     if (b == Beh::thr) {
       throw TE{1};
+    }
+    if (b == Beh::throw_re) {
+      // what Result::Ok() throws for a Result in the Error state
+      (void)Result<HV>{yaclib::StopTag{}}.Ok();
     }
     return HV{n + 1};
   } else if constexpr (RC == 1) {
@@ -419,6 +424,8 @@ std::string DescR(const Result<HV>& r) {
         std::rethrow_exception(std::as_const(r).Exception());
       } catch (const TE& t) {
         return "exc:" + std::to_string(t.tag);
+      } catch (const yaclib::ResultError<yaclib::StopError>&) {
+        return "exc:4";
       } catch (...) {
         return "exc:?";
       }
